@@ -488,14 +488,14 @@ package smtp
 //@ at smtp.scramAuth.computeClientProof base64.Encoding.Encode#1 before ghost[C14:g] world.proof = str(clientProof)
 //@ func smtp.scramAuth.computeHMAC (key, msg) (r)
 //@   requires[C14:wf] a != nil
-//@   ensures[C14:hmac] str(r) == hmacval(old(str(key)), old(str(msg)))
+//@   ensures[C14:hmac] str(r) == hmacval(old(str(key)), old(str(msg))) && bytesok(r)
 //@ func smtp.scramAuth.computeHash (key) (r)
 //@   requires[C14:wf] a != nil && a.h != nil
-//@   ensures[C14:hash] str(r) == hashval(old(str(key)))
+//@   ensures[C14:hash] str(r) == hashval(old(str(key))) && bytesok(r)
 //@ func smtp.scramAuth.computeClientProof () (r)
 //@   ensures[C14:client-proof-encoded] str(r) == b64(world.proof)
 //@   ensures[C14:client-proof-is-key-xor-signature] len(world.proof) == len(clientsig(a)) && (forall i :: 0 <= i && i < len(clientsig(a)) && i < len(clientkey(a)) ==> world.proof[i] == bitxor(clientkey(a)[i], clientsig(a)[i]))
-//@   loop 1 invariant[C14:xor] i <= len(clientSignature) && str(clientKey) == clientkey(a) && str(clientSignature) == clientsig(a) && (forall j :: 0 <= j && j < i ==> clientProof[j] == bitxor(clientKey[j], clientSignature[j]))
+//@   loop 1 invariant[C14:xor] i <= len(clientSignature) && str(clientKey) == clientkey(a) && str(clientSignature) == clientsig(a) && bytesok(clientKey) && bytesok(clientSignature) && (forall j :: 0 <= j && j < i ==> (clientProof[j] == bitxor(clientKey[j], clientSignature[j]) && 0 <= clientProof[j] && clientProof[j] <= 255))
 //@ func smtp.scramAuth.computeServerSignature () (r)
 //@   requires[C14:wf] a != nil && a.h != nil
 //@   ensures[C14:server-signature] str(r) == b64(hmacval(hmacval(str(a.saltedPwd), "Server Key"), str(a.authMessage)))
